@@ -64,13 +64,13 @@ func DrawEntropy(t *rapid.T, heavyOK bool, label string) string {
 	if heavyOK {
 		return rapid.SampledFrom(EntropyNames).Draw(t, label)
 	}
-	k := rapid.IntRange(0, 39).Draw(t, label+".w")
+	k := rapid.IntRange(0, 79).Draw(t, label+".w")
 	switch {
-	case k < 35:
+	case k < 72:
 		return EntropyNames[k%6] // NONE..FPAQ
-	case k < 37:
+	case k < 75:
 		return "CM"
-	case k < 39:
+	case k < 78:
 		return "TPAQ"
 	default:
 		return "TPAQX"
